@@ -170,6 +170,15 @@ def gen_sched_case(rng, tier, kind=None, mode=None, static=False, many_to_one=No
         case.pop('monitor', None)
         case.pop('late_cfg', None)
         case['long_haul'] = True
+    if rng.random() < 0.2 and not case.get('long_haul'):
+        # compared at the end with a bare twin (library elements only, no taps, nobody reading counters or holding
+        # packets); sometimes with a real Port behind the scheduler, as fast as the scheduler, slower, or with a small buffer
+        case['twin'] = True
+        if rng.random() < 0.6:
+            case['downstream'] = {'rate': rng.choice([case['rate'], case['rate'], 0, case['rate'] // 2 or 1, case['rate'] * 2]),
+                                  'qlimit': rng.choice([None, None, 2, 3, 3000]), 'limit_bytes': False}
+            if case['downstream']['qlimit'] == 3000:
+                case['downstream']['limit_bytes'] = True
     if kind == 'VC' and mode == 'GRID' and not case.get('fast_link') and rng.random() < 0.12:
         # a long-running simulation (clock at 2**40, resolution 2**-12) with vticks below that resolution: `now + vtick`
         # is `now`, stamps of one class coincide and only the arrival order separates them
@@ -253,9 +262,50 @@ def build(w, case):
     return s, f2c
 
 
-def run_sched(case):
+def downstream(w, case, last):
+    """Optionally a library Port between the element under test and the end of the branch (the same in the instrumented
+    world and in its bare twin): elements that look at what they are connected to see a Port there, not a tap."""
+    dn = case.get('downstream')
+    if not dn:
+        return last
+    from onl.netdev import Port
+    port = Port(w.env, dn.get('rate', 0), dn.get('qlimit'), bool(dn.get('limit_bytes')), 'dn')
+    port.out = last
+    return port
+
+
+def bare_twin_view(case):
+    """What the library sinks of the same scenario, built without any tap, have recorded at the end."""
+    from .net import sink_view
+    c2 = dict(case)
+    for k in ('shadow', 'monitor'):
+        c2.pop(k, None)
+    r = run_sched(c2, bare=True)
+    return sink_view(r.w), r.w
+
+
+def twin_check(r, case, pid, stats):
+    """Violations found by comparing the instrumented run r with its bare twin."""
+    if not case.get('twin') or case.get('no_out'):
+        return []
+    from .net import sink_view, compare_sink_views
+    stats['compared_with_bare_twin'] = 1
+    if case.get('downstream'):
+        stats['library_port_downstream'] = 1
+    view_b, w2 = bare_twin_view(case)
+    if w2.raised:
+        return [(pid + '.T', 'the same scenario without taps (library elements only) raised %r' % (w2.raised[0],))]
+    va = sink_view(r.w)
+    d = compare_sink_views({'sink': va.get('sink', {})}, {'sink': view_b.get('sink', {})})
+    if d is not None:
+        return [(pid + '.T', 'the scenario runs differently when nobody watches the element (no taps, library sinks, no '
+                 'counter read, no packet kept alive): ' + d)]
+    return []
+
+
+def run_sched(case, bare=False):
     t0 = case.get('t0', 0)
-    w = NetWorld(t0)
+    w = NetWorld(t0, bare=bare)
     env = w.env
     s, f2c = build(w, case)
     flows = case.get('flows', [])
@@ -270,7 +320,7 @@ def run_sched(case):
     elif case.get('no_out'):
         s.out = None          # explicitly nothing: transmitted packets are simply gone
     else:
-        s.out = OutTap(w, 's', s, Recorder(w, 'sink'), post=counters)
+        s.out = OutTap(w, 's', s, downstream(w, case, Recorder(w, 'sink')), post=counters)
     start_injector(w, InTap(w, 's', s, post=counters), [tuple([t0 + x[0]] + list(x[1:])) for x in case.get('workload', [])])
     if case.get('shadow'):
         sh = dict(case)
